@@ -436,8 +436,17 @@ func checkEffects(p *Program, r *Report, f *FuncFacts, sp *guardSpec, sfn string
 		}
 		for _, pr := range sp.protos {
 			// all " ;; "-separated fragments must occur in one key
-			frags := strings.Split(pr[0], " ;; ")
-			found := ""
+			spec := pr[0]
+			need := 1
+			if strings.HasPrefix(spec, "x") {
+				var n int
+				if _, err := fmt.Sscanf(spec, "x%d ", &n); err == nil && n > 0 {
+					need = n
+					spec = spec[strings.Index(spec, " ")+1:]
+				}
+			}
+			frags := strings.Split(spec, " ;; ")
+			found := 0
 			for _, k := range keys {
 				ok := true
 				for _, fr := range frags {
@@ -447,13 +456,12 @@ func checkEffects(p *Program, r *Report, f *FuncFacts, sp *guardSpec, sfn string
 					}
 				}
 				if ok {
-					found = k
-					break
+					found++
 				}
 			}
 			cons := sfn + " :: " + pr[0]
-			if found == "" {
-				r.fail("proto", cons, fpos, "protocol row has no matching guard/exit/effect in the function"+refStr(pr[1]))
+			if found < need {
+				r.fail("proto", cons, fpos, fmt.Sprintf("protocol row matches %d guard/exit/effect(s) in the function, needs %d", found, need)+refStr(pr[1]))
 			} else {
 				r.pass("proto", cons, fpos, pr[1])
 			}
